@@ -9,6 +9,7 @@ import ISnap.Driver.StrCmd
 import ISnap.Driver.RewriteCmd
 import ISnap.Driver.AssignCmd
 import ISnap.Driver.SessionCmd
+import ISnap.Driver.ExternalCmd
 /-
   isnap-driver: one s-expression per line in, one per line out (DESIGN.md §3.7).
   Unknown or malformed input answers `(bad-op)`, never a default.
@@ -19,6 +20,7 @@ def handle (e : Sexp) : Sexp :=
   match e with
   | .list (.atom "sites" :: rest) => (SiteCmd.run rest).getD (.list [.atom "bad-op"])
   | .list (.atom "assign" :: rest) => (AssignCmd.run rest).getD (.list [.atom "bad-op"])
+  | .list (.atom "storage" :: rest) => (ExternalCmd.run rest).getD (.list [.atom "bad-op"])
   | .list (.atom "align" :: rest) => (AlignCmd.run rest).getD (.list [.atom "bad-op"])
   | .list (.atom c :: rest) =>
     if c == "strlit" || c == "pyrepr" || c == "bytesrepr" || c == "evallit" || c == "evalbytes" then
